@@ -144,6 +144,15 @@ def gen_x0(rng, g, D, kind):
         for i in range(D):
             if rng.random() < 0.5 and g["plb"][i] > g["lb"][i]:
                 x0[i] = _r(_inside(rng, g["lb"][i], g["plb"][i], g["islog"][i], 0.3), 9)
+    elif kind == "just_inside" and g["lb"] is not None:
+        # just beyond the zone in which the constructor nudges a start away from a hard bound (1e-3 of the range), but
+        # within a search-mesh step of it: snapping the start to the mesh may overshoot an off-grid bound
+        cls = "on_bound"
+        for i in range(D):
+            if rng.random() < 0.6 and math.isfinite(g["lb"][i]) and math.isfinite(g["ub"][i]):
+                t = 10 ** rng.uniform(math.log10(1.02e-3), math.log10(3e-2))
+                rngw = g["ub"][i] - g["lb"][i]
+                x0[i] = _r(g["lb"][i] + t * rngw, 12) if rng.random() < 0.5 else _r(g["ub"][i] - t * rngw, 12)
     elif kind == "far" and g["lb"] is not None and g["plb"] is not None:
         # every coordinate 10**6.5 .. 10**8.5 plausible widths away from the plausible box (huge hard boxes only)
         cls = "on_bound"
@@ -418,7 +427,7 @@ def gen_options(rng, D, prof, noise_mode):
         for name, val in rng.sample([("skip_poll_after_search", False), ("consecutive_skipping", False), ("poll_training", False),
                                      ("skip_poll", False), ("hedge_gamma", 0), ("hedge_gamma", 0.25), ("search_n_try", 1),
                                      ("search_n_try", 2), ("fun_eval_start", 0), ("tol_stall_iters", 1), ("accelerate_mesh_steps", 1),
-                                     ("min_refit_time", 1), ("tol_poi", 0.0), ("search_grid_number", 6), ("gp_mean_percentile", 50), ("search_size_locked", False), ("search_size_locked", False)],
+                                     ("min_refit_time", 1), ("tol_poi", 0.0), ("search_grid_number", 6), ("gp_mean_percentile", 50), ("search_size_locked", False), ("search_size_locked", False), ("sloppy_improvement", False)],
                                     rng.randrange(1, 4)):
             if not (name == "sloppy_improvement" and prof.get("name") == "c04"):
                 o[name] = val
@@ -630,6 +639,9 @@ def make_scenario(seed, profile=None, index=0):
             scn["fstar"] = scn["fstar"] * mul
         scn["options"].pop("noise_size", None)
         scn["options"]["max_fun_evals"] = min(int(scn["options"].get("max_fun_evals", 40)), 40)
+    # noise handling explicitly declined instead of left unset (deterministic or auto-detected targets)
+    if "uncertainty_handling" not in scn["options"] and mrng.random() < 0.3:
+        scn["options"]["uncertainty_handling"] = False
     # threshold of the initial noise test only (documented meaning); valid, rarely set (same own stream)
     if mrng.random() < prof.get("knobs", {}).get("tol_noise", 0.06):
         scn["options"]["tol_noise"] = _choice(mrng, [1e-3, 1e-5, 1e-8])
